@@ -36,7 +36,10 @@ REQUIRED = [
     "KV.C16.wordSwap_not_exchange", "KV.C16.sizedSort_bytes", "KV.C16.spill_roundtrip", "KV.C16.spill_m8_breaks",
     "KV.C16.spill_records_roundtrip", "KV.C16.afterBlockSorterBytes_refines", "KV.C16.codeSortBytes_eq_spec",
     "KV.C16.codeSortBytes_ok", "KV.C16.output_blocks_invariant", "KV.C16.counting_int", "KV.C16.intLt_singleton", "KV.C16.proxy_iterator_arith", "KV.C16.pass_spill_bytes", "KV.C16.mergeGroup_uniform",
-    "KV.C16.byteEntry_refines", "KV.C16.byteEntry_unrounded_breaks", "KV.C16.stream_write_roundtrip", "KV.C16.pread_blocks_invariant", "KV.C16.pwrite_roundtrip", "KV.C16.fileEntry_refines", "KV.C16.codeSort_eq_spec", "KV.C16.codeSort_combine_eq_spec",
+    "KV.C16.byteEntry_refines", "KV.C16.byteEntry_unrounded_breaks", "KV.C16.stream_write_roundtrip", "KV.C16.pread_blocks_invariant", "KV.C16.pwrite_roundtrip",
+    "KV.C16.decodeRun_records", "KV.C16.perBuffer_multiple", "KV.C16.storeRunsBytes_refines", "KV.C16.codeMergeBytes_refines",
+    "KV.C16.codeSortBytes_passes_eq_spec", "KV.C16.codeSortBytes_passes_ok", "KV.C16.holePunch_frame",
+    "KV.C16.holePunch_c16_8_breaks", "KV.C16.fileEntry_refines", "KV.C16.codeSort_eq_spec", "KV.C16.codeSort_combine_eq_spec",
 ]
 
 BOOST = ["-Wl,--no-as-needed", "-lboost_thread", "-lboost_system", "-ldl"]
